@@ -40,7 +40,7 @@ Definition err_class (e : oerr) : N :=
   match e with
   | OENotExist => 2
   | OEExist => 3
-  | OEEntryCorrupt | OEManifestRead | OEManifest _ | OEJournalRead _ | OEBatch _ _ | OEMissing _ => 1
+  | OEEntryCorrupt | OEMetaCorrupt | OEManifestRead | OEManifest _ | OEJournalRead _ | OEBatch _ _ | OEMissing _ => 1
   | _ => 99
   end.
 
